@@ -41,11 +41,12 @@ CLASS_STYLES = {'ki': {'italics': True}, 'Strong': {'bold': True}, 'titleRef': {
                 'kplain': {'color': 'red'}, 'kall': {'classes': ['titleRef', 'Strong'], 'class': 'titleRef'}}
 CLASS_KINDS = [{'class': 'ki'}, {'classes': ['ki'], 'class': 'ki'}, {'classes': ['ki', 'Strong'], 'class': 'ki'}, {'class': 'titleRef'},
                {'class': 'kplain'}, {'class': 'kall'}, {'class': 'ki', 'italics': False}, {'class': 'Strong', 'underline': True},
-               {'class': 'nosuch'}]
+               {'class': 'nosuch'}, {'class': 'nosuch', 'italics': True}, {'class': 'Strong', 'italics': True}]
 
 
 DIRECT_CLASS_KINDS = [{'class': 'ki'}, {'class': 'kplain'}, {'class': 'Strong'}, {'class': 'nosuch'},
-                      {'class': 'ki', 'color': 'red'}]
+                      {'class': 'ki', 'color': 'red'}, {'class': 'nosuch', 'italics': True},
+                      {'class': 'Strong', 'italics': True}, {'class': 'kplain', 'italics': True}]
 
 
 def resolve_flags(style, styles, depth=0):
@@ -245,6 +246,8 @@ def cases(ctx):
             feats.add('class-styled-dfxp')
         yield {'kind': 'chain', 'chain': chain, 'features': sorted(feats),
                'inline_positioning': rng.random() < 0.4,
+               # the DFXP hops are written by one of the three DFXP writers
+               'dfxp_writer': rng.choice(['DFXPWriter'] * 5 + ['SinglePositioningDFXPWriter', 'LegacyDFXPWriter', 'LegacyDFXPWriter']),
                'set': {'langs': [{'lang': 'en-US', 'layout': None, 'captions': caps}], 'styles': styles, 'layout': None}}
 
 
@@ -282,9 +285,12 @@ def _read(fmt, doc):
     return getattr(pycaption, {'dfxp': 'DFXPReader', 'sami': 'SAMIReader'}[fmt])().read(doc)
 
 
-def _write(fmt, cs, inline_positioning=False):
+def _write(fmt, cs, inline_positioning=False, dfxp_writer=None):
     opts = {'write_inline_positioning': True} if fmt == 'dfxp' and inline_positioning else {}
-    return W.make_writer({'dfxp': 'DFXPWriter', 'sami': 'SAMIWriter', 'webvtt': 'WebVTTWriter'}[fmt], opts).write(cs)
+    name = {'dfxp': dfxp_writer or 'DFXPWriter', 'sami': 'SAMIWriter', 'webvtt': 'WebVTTWriter'}[fmt]
+    if name == 'LegacyDFXPWriter':
+        opts = {}
+    return W.make_writer(name, opts).write(cs)
 
 
 def _planes(chain_step):
@@ -361,6 +367,8 @@ def check(case, ctx):
         return fails[:3]
     chain = case['chain']
     ctx.count('chain_' + chain)
+    if 'dfxp' in chain and case.get('dfxp_writer', 'DFXPWriter') != 'DFXPWriter':
+        ctx.count('chains_through_' + case['dfxp_writer'])
     for f in case['features']:
         ctx.count({'across-break': 'spans_across_break', 'adjacent': 'adjacent_spans', 'empty': 'empty_spans',
                    'positioned': 'positioned_captions', 'class-styled': 'webvtt_sets_with_class_styled_spans',
@@ -387,7 +395,7 @@ def check(case, ctx):
         return fails[:3]
     for step in chain.split('>'):
         try:
-            out = _write(step, cur, case.get('inline_positioning'))
+            out = _write(step, cur, case.get('inline_positioning'), case.get('dfxp_writer'))
         except Exception as e:
             return [{'what': 'writer raised', 'step': step, 'error': repr(e)[:300]}]
         # markup balance of the output
